@@ -666,9 +666,10 @@ where
             3 => {
                 let len = reader.read_u32()? as usize;
 
-                SqliteValue::Text(unsafe {
-                    CompactString::from_utf8_unchecked(reader.read_vec(len)?)
-                })
+                SqliteValue::Text(
+                    CompactString::from_utf8(reader.read_vec(len)?)
+                        .map_err(|_| speedy::Error::custom("SqliteValue text is not valid UTF-8"))?,
+                )
             }
             4 => SqliteValue::Blob(Readable::read_from(reader)?),
             _ => return Err(speedy::Error::custom("unknown SqliteValue variant").into()),
